@@ -352,17 +352,40 @@ impl SegmentAllocator {
     /// 3. Returns error if MAX_SEGMENTS reached
     pub fn allocate(&mut self, size: u64) -> crate::Result<Allocation> {
         // Try existing thawed segments
-        for info in &mut self.segments {
-            if info.has_space_for(size) {
-                let offset = info.write_position;
-                info.write_position += size;
-                return Ok(Allocation {
-                    segment_index: info.index,
-                    file_offset: u32::try_from(offset).map_err(|_| {
-                        crate::StorageError::Archive("segment offset exceeds u32 range".to_string())
-                    })?,
-                });
+        for pos in 0..self.segments.len() {
+            if !self.segments[pos].has_space_for(size) {
+                continue;
             }
+
+            // An index below the highest data file that has no file of its own (a gap
+            // found by `load_existing`) is a segment that does not exist yet: it gets
+            // its data file and header block before space in it is handed out, and
+            // only within the segment limit.
+            let index = self.segments[pos].index;
+            let data_path = segment_data_path(&self.base_path, index);
+            if !data_path.exists() {
+                if index >= self.max_segments {
+                    continue;
+                }
+                let header = SegmentHeader::generate(index, &self.path_hash);
+                std::fs::write(&data_path, header.to_bytes()).map_err(|e| {
+                    crate::StorageError::Archive(format!(
+                        "failed to create segment file {}: {e}",
+                        data_path.display()
+                    ))
+                })?;
+                self.segments[pos].header = header;
+            }
+
+            let info = &mut self.segments[pos];
+            let offset = info.write_position;
+            info.write_position += size;
+            return Ok(Allocation {
+                segment_index: info.index,
+                file_offset: u32::try_from(offset).map_err(|_| {
+                    crate::StorageError::Archive("segment offset exceeds u32 range".to_string())
+                })?,
+            });
         }
 
         // Create new segment
